@@ -3,10 +3,9 @@ from __future__ import annotations
 
 import ast
 
-from sa.astx import NotConst, call_attr, call_name, const_eval, dotted, lincmp, src, walk_local
+from sa.astx import NotConst, call_attr, call_name, const_eval, lincmp, src, walk_local
 from sa.selftest import Mutant, Silent
-from sa.props._lib_j import (all_paths, asserted_is, edge_asserts, is_self_attr, local_defs, no_exc, node_calls, normal_exits, params, resolve,
-                             rsrc)
+from sa.props._lib_j import all_paths, asserted_is, edge_asserts, is_self_attr, no_exc, node_calls, normal_exits, params, resolve
 
 PROPERTY = "C53"
 LOG = "python/logfile.py"
